@@ -3,6 +3,7 @@ the library (pycryptodome).  This is the ONLY file of the three models that
 imports Crypto.  Run:
 
     PYTHONPATH=/verif /venv/bin/python /verif/ref/devcheck_encodings.py [-v] [--quick]
+    (environment: DEVCHECK_SEED=<int>, DEVCHECK_ONLY=<section numbers, comma separated>)
 
 Sections
   1. library export_key() in every format / protection combination
@@ -13,6 +14,9 @@ Sections
   3. DER primitives against Crypto.Util.asn1 (both directions) + strictness
   4. padding and RFC 1751 against Crypto.Util.Padding / Crypto.Util.RFC1751
   5. probes: inputs where specification and library are expected to differ
+  6. mutation fuzzing of valid blobs: the model raises nothing but ValueError
+     and never accepts an input the library refuses (unless the numbers are
+     merely arithmetically inconsistent) or decodes differently
 
 The script ends with "MISMATCHES: 0" when everything agrees; documented
 library deviations are listed separately (they are findings, not model bugs).
@@ -112,7 +116,9 @@ from Crypto.PublicKey import RSA, DSA, ECC                  # noqa: E402
 from Crypto.Util import asn1, Padding, RFC1751              # noqa: E402
 from Crypto.IO import PKCS8, PEM                            # noqa: E402
 
-RND = random.Random(20260925)
+SEED = int(os.environ.get('DEVCHECK_SEED', '20260925'))
+ONLY = os.environ.get('DEVCHECK_ONLY', '')     # e.g. '6' or '1,2'
+RND = random.Random(SEED)
 
 COUNTS = {}
 MISMATCHES = []
@@ -1269,6 +1275,30 @@ def section5():
     probe('ed25519-y-ge-p', "Ed25519 public key with y = p + 1 "
           "(non-canonical)", kf._spki('1.3.101.112', None, noncanon_y), ECC)
 
+    # X25519 / X448 non-canonical u-coordinates (RFC 7748 section 5: accept
+    # and reduce modulo p; X25519 additionally masks bit 255)
+    for cname, oid, u_raw in (
+            ('Curve25519', '1.3.101.110',
+             (kf._P25519 + 9).to_bytes(32, 'little')),
+            ('Curve25519', '1.3.101.110',
+             ((1 << 255) | 9).to_bytes(32, 'little')),
+            ('Curve448', '1.3.101.111', (kf._P448 + 5).to_bytes(56, 'little'))):
+        count('probes')
+        blob = kf._spki(oid, None, u_raw)
+        m = kf.parse_spki(blob)
+        lib = outcome(ECC.import_key, blob)
+        if lib[0] != 'ok':
+            deviation('xdh-noncanonical-' + cname + u_raw[-1:].hex(),
+                      "%s public key with non-canonical u (%s...): model x=%d "
+                      "(notes %r); library raises %s: %s" %
+                      (cname, u_raw.hex()[:16], m['x'], m.get('_notes'),
+                       lib[0], lib[1]))
+        elif int(lib[1].pointQ.x) != m['x']:
+            deviation('xdh-noncanonical-' + cname + u_raw[-1:].hex(),
+                      "%s public key with non-canonical u (%s): model x=%d, "
+                      "library x=%d (not reduced modulo p)" %
+                      (cname, u_raw.hex(), m['x'], int(lib[1].pointQ.x)))
+
     # -- PEM ---------------------------------------------------------------------
     pem = kf.pem_encode(kf.rsa_spki_der(rk), 'PUBLIC KEY')
     probe('pem-label-mismatch', "PEM with BEGIN PUBLIC KEY / END PRIVATE KEY",
@@ -1522,6 +1552,8 @@ def main():
                      ('4 padding / RFC1751', section4),
                      ('5 probes', section5),
                      ('6 mutation fuzzing', section6)):
+        if ONLY and name.split()[0] not in ONLY.split(','):
+            continue
         t = time.time()
         before = len(MISMATCHES)
         fn()
@@ -1536,7 +1568,8 @@ def main():
           len(EXPORT_COMBOS))
     seen = set()
     for kind, desc in EXPORT_COMBOS:
-        k2 = kind.split('[')[0] + ('-public' if 'public' in kind else '')
+        k2 = kind.split('[')[0].replace('-public', '') + \
+            ('-public' if 'public' in kind else '')
         import re
         d2 = re.sub(r"protection='[^']*'", "protection=<P>", desc)
         if (k2, d2) not in seen:
